@@ -1,7 +1,8 @@
 package quic
 
 //vx:pkg github.com/refraction-networking/uquic
-//vx:entry Harness_C01_send
+//vx:entry Harness_C01_send Harness_C01_send_completion
+//vx:reach Harness_C01_send_completion C01.compl.completed C01.compl.retransmitted
 //vx:param all maxdepth=2000
 //vx:param quick steps=4
 //vx:param thorough steps=5
@@ -160,4 +161,75 @@ func Harness_C01_send() {
 		vx_assert("C01.send.every-written-byte-in-a-frame-not-lost", covered)
 	}
 	_ = wire.StreamFrame{}
+}
+
+
+// Directed history for stream completion: data written, packetised in two frames, closed (FIN sent), then
+// any three of {lose a frame, acknowledge a frame, packetise again}. The stream may be reported completed
+// only when every written byte is in an acknowledged frame and the FIN was acknowledged.
+func Harness_C01_send_completion() {
+	sender := &vxSendSender{}
+	rtt := utils.NewRTTStats()
+	connFC := flowcontrol.NewConnectionFlowController(1<<20, 1<<20, nil, rtt, utils.DefaultLogger)
+	connFC.UpdateSendWindow(1 << 20)
+	strFC := flowcontrol.NewStreamFlowController(6, connFC, 1<<20, 1<<20, 1<<20, rtt, utils.DefaultLogger)
+	str := newSendStream(context.Background(), 6, sender, strFC, false)
+	n := vx_range("writeLen", 2, 1000)
+	_, err := str.Write(vx_window("truth", 0, n))
+	vx_assert("C01.compl.write", err == nil)
+	var frames [6]*vxSentFrame
+	nf := 0
+	pop := func(max protocol.ByteCount) {
+		f, _, _ := str.popStreamFrame(max, protocol.Version1)
+		if f.Frame != nil && nf < len(frames) {
+			for i := 0; i < nf; i++ {
+				if frames[i].state == 2 {
+					vx_reach("C01.compl.retransmitted")
+				}
+			}
+			frames[nf] = &vxSentFrame{f: f, off: f.Frame.Offset, n: f.Frame.DataLen(), fin: f.Frame.Fin}
+			nf++
+		}
+	}
+	pop(protocol.ByteCount(vx_range("firstBudget", int(protocol.MinStreamFrameSize), 600)))
+	vx_assert("C01.compl.close", str.Close() == nil)
+	pop(1500)
+	for step := 0; step < 3; step++ {
+		switch vx_choice("op", 3) {
+		case 0, 1:
+			if nf == 0 {
+				continue
+			}
+			fr := frames[vx_choice("which", nf)]
+			if fr.state != 0 {
+				continue
+			}
+			if vx_bool("ack") {
+				fr.state = 1
+				fr.f.Handler.OnAcked(fr.f.Frame)
+			} else {
+				fr.state = 2
+				fr.f.Handler.OnLost(fr.f.Frame)
+			}
+		case 2:
+			pop(1500)
+		}
+		vx_assert("C01.compl.completed-at-most-once", sender.completed <= 1)
+		if sender.completed == 1 {
+			vx_reach("C01.compl.completed")
+			for i := 0; i < nf; i++ {
+				if frames[i].state == 2 {
+					vx_reach("C01.compl.lost-then-acked-rest")
+				}
+			}
+			q := protocol.ByteCount(vx_range("coverProbe", 0, n-1))
+			acked, finAcked := false, false
+			for i := 0; i < nf; i++ {
+				acked = vx_or(acked, vx_and(frames[i].state == 1, vx_and(frames[i].off <= q, q < frames[i].off+frames[i].n)))
+				finAcked = finAcked || (frames[i].state == 1 && frames[i].fin)
+			}
+			vx_assert("C01.compl.completed-only-when-every-byte-acknowledged", acked)
+			vx_assert("C01.compl.completed-only-when-fin-acknowledged", finAcked)
+		}
+	}
 }
